@@ -138,7 +138,7 @@ func (w *World) boot() error {
 			w.Shadow = NewDevice(w.SI, func(string, ...any) {})
 			w.Shadow.State = w.Dev.State.Clone()
 		}
-		tgt = &teeTarget{real: real, shadow: w.Shadow}
+		tgt = &teeTarget{real: real, shadow: w.Shadow, dev: w.Dev}
 	}
 	w.DS = datastore.VerifNew(w.Ctx, w.Cfg, w.SchemaC, w.Cache, tgt)
 	txto := w.Opts.TxTimeout
@@ -182,6 +182,7 @@ func (w *World) NoteTimer(d time.Duration) {
 type teeTarget struct {
 	real   target.Target
 	shadow *Device
+	dev    *Device // the main device: serves the scripted sync traffic
 }
 
 func (t *teeTarget) Set(ctx context.Context, source target.TargetSource) (*sdcpb.SetDataResponse, error) {
@@ -194,7 +195,7 @@ func (t *teeTarget) Get(ctx context.Context, req *sdcpb.GetDataRequest) (*sdcpb.
 	return t.real.Get(ctx, req)
 }
 func (t *teeTarget) Sync(ctx context.Context, cfg *config.Sync, ch chan *target.SyncUpdate) {
-	<-ctx.Done()
+	t.dev.Sync(ctx, cfg, ch)
 }
 func (t *teeTarget) Status() *target.TargetStatus {
 	return target.NewTargetStatus(target.TargetStatusConnected)
